@@ -449,7 +449,14 @@ func (h *harness) summary() *result {
 		if h.tracer.queued.Load() > 0 {
 			h.label("bus:metrics-tracer:told-of-a-queued-event")
 		}
+		if h.tracer.real {
+			h.label("bus:metrics-tracer:library-prometheus-tracer")
+		}
 	}
+	if h.sc.Tight {
+		h.label("steps-released-by-non-yielding-barrier")
+	}
+	h.metricsLabels()
 	for _, s := range h.subs {
 		if s.subRet == 0 {
 			continue
@@ -633,4 +640,76 @@ func (h *harness) summary() *result {
 func keyOf(v any) evKey {
 	_, em, n, _ := decode(v)
 	return evKey{em, n}
+}
+
+// metricsLabels: coverage of the class "several goroutines deliver at the same time on a bus
+// that reports to the library's own metrics tracer" (labels only, nothing is judged here;
+// the rules that apply are the ones for every bus: no panic / crash, exactly once, order).
+// Two Emit calls are concurrent when their call intervals overlap by the logical stamps;
+// they reach the tracer together when they have a subscriber kind in common that does not
+// serialise them (a wildcard subscriber: delivered under a read lock) or are of different
+// types (different node locks).
+func (h *harness) metricsLabels() {
+	names := map[string]bool{}
+	named, wild := 0, 0
+	for _, s := range h.subs {
+		if s.subRet == 0 {
+			continue
+		}
+		if s.spec.Name != "" {
+			named++
+			names[s.spec.Name] = true
+			h.label("sub:named")
+		} else {
+			h.label("sub:default-name")
+		}
+		if s.wild {
+			wild++
+		}
+	}
+	if named >= 2 && len(names) < named {
+		h.label("sub:named:two-share-a-name")
+	}
+	if len(names) >= 2 {
+		h.label("sub:named:distinct-names>=2")
+	}
+	if h.tracer == nil || !h.tracer.real {
+		return
+	}
+	// emits (returned without error) whose call intervals overlap, made by different goroutines
+	sameType, diffType := false, false
+	for i, x := range h.all {
+		if !x.ok() {
+			continue
+		}
+		for _, y := range h.all[i+1:] {
+			if !y.ok() || y.burst == x.burst || !(x.begin < y.end && y.begin < x.end) {
+				continue
+			}
+			if x.typ == y.typ {
+				sameType = true
+			} else {
+				diffType = true
+			}
+		}
+	}
+	if !sameType && !diffType {
+		return
+	}
+	h.label("prometheus-tracer:concurrent-emits")
+	if h.sc.Tight {
+		h.label("prometheus-tracer:concurrent-emits:tight-start")
+	}
+	if diffType {
+		h.label("prometheus-tracer:concurrent-emits:different-types")
+	}
+	if wild > 0 {
+		h.label("prometheus-tracer:concurrent-emits:wildcard-subscriber")
+		if len(names) > 0 {
+			h.label("prometheus-tracer:concurrent-emits:wildcard-subscriber:named")
+		}
+	}
+	if len(names) >= 2 {
+		h.label("prometheus-tracer:concurrent-emits:distinct-names>=2")
+	}
 }
